@@ -65,6 +65,12 @@ impl HVocab {
         let by_name = v.names.iter().enumerate().map(|(i, (l, ns, _))| ((l.clone(), *ns), i)).collect();
         HVocab { v, by_name, ns_https, ns_weird, elems, attrs }
     }
+    /// The standard vocabulary only: `XHTML_NS` is not registered until `xot.html5()` does it.
+    pub fn standard_only(xot: &mut Xot) -> HVocab {
+        let v = Vocab::standard(xot);
+        let by_name = v.names.iter().enumerate().map(|(i, (l, ns, _))| ((l.clone(), *ns), i)).collect();
+        HVocab { v, by_name, ns_https: usize::MAX, ns_weird: usize::MAX, elems: vec![], attrs: vec![] }
+    }
     pub fn id(&self, local: &str, ns: usize) -> usize {
         *self.by_name.get(&(local.to_string(), ns)).unwrap_or_else(|| panic!("name {} in ns {} not in the vocabulary", local, ns))
     }
